@@ -9,6 +9,7 @@
 use crate::mt::*;
 use arrow_array::{Int32Array, RecordBatch, RecordBatchIterator};
 use arrow_schema::{DataType, Field, Schema as ArrowSchema};
+use futures::FutureExt;
 use hxlib::util::{coq, Sink, Stream};
 use lance::dataset::transaction::{DataReplacementGroup, Operation, RewriteGroup, Transaction, UpdateMap, UpdateMapEntry, UpdateMode};
 use lance::dataset::{WriteMode, WriteParams};
@@ -284,12 +285,12 @@ pub async fn verdict_matrix(sink: &mut Sink, prop: &str) {
                 let mb = MOp::from_real(&b.op, &mut it);
                 let txn = Transaction::new(rv, a.op.clone(), None);
                 let other = Transaction::new(rv, b.op.clone(), None);
-                let r = hxlib::util::catch(|| {
-                    futures::executor::block_on(async {
-                        let mut rb = TransactionRebase::try_new(&ds, txn, tree.as_ref()).await?;
-                        rb.check_txn(&other, rv + 1)
-                    })
-                });
+                let r = std::panic::AssertUnwindSafe(async {
+                    let mut rb = TransactionRebase::try_new(&ds, txn, tree.as_ref()).await?;
+                    rb.check_txn(&other, rv + 1)
+                })
+                .catch_unwind()
+                .await;
                 let mut code = match &r {
                     Ok(x) => err_code(x),
                     Err(_) => 4,
